@@ -23,6 +23,8 @@ mod c19;
 mod c20;
 mod transports;
 mod selftest;
+mod real;
+mod realparts;
 
 fn main() {
     let args: Vec<String> = std::env::args().collect();
@@ -82,6 +84,25 @@ fn run(args: &[String], tier: &str) -> i32 {
         "C06" => c06::run(tier),
         "C07" => c07::run(tier),
         "sim-smoke" => c07::smoke(),
+        "real-smoke" => real::smoke(),
+        "real-part" => {
+            // debugging aid: nunverif real-part <C04|C05|C06|C07> <runs>
+            common::quiet_panics();
+            let which = args.get(2).cloned().unwrap_or_default();
+            let n: usize = args.get(3).and_then(|x| x.parse().ok()).unwrap_or(8);
+            let v = common::kf::Verdicts::load(&which);
+            let st = match which.as_str() {
+                "C04" => realparts::c04_real(&v, n, common::seed()),
+                "C05" => realparts::c05_real(&v, n, common::seed()),
+                "C06" => realparts::c06_real(&v, n, common::seed()),
+                _ => realparts::c07_real(&v, n, common::seed()),
+            };
+            println!("{}", serde_json::to_string_pretty(&st.to_json()).unwrap());
+            if std::env::var("VERIF_KEEP").is_err() {
+                common::cleanup_scratch();
+            }
+            v.finish("real")
+        }
         "C08" => c08::run(tier),
         "C09" => c09::run(tier),
         "C10" => c10::run(tier),
